@@ -35,6 +35,15 @@ def _region(b, bi, tb, others):
 def producer_table(prog):
     bs = [b for b in prog.bodies.values() if b.crate == 'pilota_build' and b.key == 'parser::protobuf::Lower::lower_ty']
     if not bs:
+        # found by what it does: the function of the protobuf lowering that matches on >= 15 descriptor types and builds
+        # ProstType tags (robust to a rename of lower_ty)
+        for b in prog.bodies.values():
+            if b.crate == 'pilota_build' and b.key.startswith('parser::protobuf::') and b.kind in ('Fn', 'AssocFn'):
+                big = any(bb['t']['k'] == 'switch' and len(bb['t']['vals']) >= 15 for bb in b.bbs if not bb['cleanup'])
+                tags = any(st.get('r', {}).get('k') == 'agg' and 'ProstType::' in st['r']['kind'] for bb in b.bbs for st in bb['st'])
+                if big and tags:
+                    bs.append(b)
+    if len(bs) != 1:
         return None, None
     b = bs[0]
     sw = None
@@ -68,6 +77,14 @@ def consumer_table(prog):
     """TyKind variant -> ordered decision list [(ProstType guard | None, module)]"""
     bs = [b for b in prog.bodies.values() if b.crate == 'pilota_build' and b.key == 'codegen::protobuf::ProtobufBackend::ty_module']
     if not bs:
+        # found by what it does: the backend function matching on TyKind (>= 8 arms) whose arms yield codec module names
+        for b in prog.bodies.values():
+            if b.crate == 'pilota_build' and b.key.startswith('codegen::protobuf::') and b.kind in ('Fn', 'AssocFn'):
+                sw = any(bb['t']['k'] == 'switch' and len(bb['t']['vals']) >= 8 and b.expr_op(bb['t']['o'])[0] == 'discr' and b.expr_op(bb['t']['o'])[2].endswith('ty::TyKind') for bb in b.bbs if not bb['cleanup'])
+                names = {st['r']['o']['c']['str'] for bb in b.bbs for st in bb['st'] if st.get('r', {}).get('k') == 'use' and 'c' in st['r'].get('o', {}) and 'str' in st['r']['o']['c']}
+                if sw and {'sint32', 'fixed64', 'bool'} <= names:
+                    bs.append(b)
+    if len(bs) != 1:
         return None, None
     b = bs[0]
     tykind = None
